@@ -30,6 +30,9 @@
                     C13 / C14 matter)
      "nofire:kind" / "nofire:post"   a fault run whose fault did not fire and whose outcome is not
                     an allowed normal outcome
+     "src:kind" / "src:post" / "src:probe"   the ROW SOURCE of an INSERT / REPLACE failed at source row k
+                    (event sfault, below) and the statement did not fail / changed a table / left an
+                    index lookup that is not the filter over the tables
    The specification state follows the history exactly as in Trace_Tables (Judge re-used, with its
    resynchronisation); its `MM` lines belong to C13/C14/C16/C19/C20 and are ignored by C15.        *)
 EXTENDS Trace_Tables
@@ -109,12 +112,31 @@ XReport(e) ==
   ELSE PrintT("MF " \o ToJson([l |-> l, id |-> e.id, ev |-> e.ev, k |-> e.k, calls |-> e.calls, what |-> what,
                                 changed |-> XChanged(e), badprobes |-> {}, fired |-> Fired(e)]))
 
+\* ---------------------------------------------------------------- the row source fails at source row k
+\* {"ev":"sfault","id":n,"stmt":<the INSERT / REPLACE .. VALUES statement with the same rows>,"k":k,"n":m,"pre":..,"reply":..,
+\*  "post":..,"probes":[..],"tags":[mechanism ..]}: a non-IGNORE INSERT / REPLACE of m source rows run on a fresh copy of
+\* the state, whose ROW SOURCE (not a row edit) raises an error at source row k: a BEFORE INSERT trigger that SIGNALs for
+\* that row of the VALUES list, or INSERT / REPLACE .. SELECT .. ORDER BY whose select list fails at run time on that row;
+\* in autocommit mode or inside START TRANSACTION .. COMMIT (`post` is read after the COMMIT).
+\* Outcome exactly as StmtWithFault: k >= 1 => reply = error /\ every table UNCHANGED /\ every index lookup is the filter
+\* over those rows; k = 0 (the source does not fail) => the normal outcome of the VALUES statement.
+SrcWhat(e, bp) ==
+  IF e.k >= 1 THEN
+       (IF e.reply.kind # "err" THEN <<"src:kind">> ELSE <<>>)
+    \o (IF ~Unchanged(e) THEN <<"src:post">> ELSE <<>>)
+    \o (IF bp # {} THEN <<"src:probe">> ELSE <<>>)
+  ELSE NormalWhat(e, "srcok") \o (IF bp # {} THEN <<"src:probe">> ELSE <<>>)
+SrcFault(e) ==
+  /\ LET bp == BadProbes(e) IN Report(e, SrcWhat(e, bp), bp)
+  /\ st' = st
+
 FNext ==
   /\ l <= Len(TraceLog)
   /\ l' = l + 1
   /\ LET e == TraceLog[l] IN
      CASE e.ev = "schema" -> st' = [tabs |-> e.tabs, autoinc |-> e.autoinc, lastid |-> 0]
        [] e.ev = "fault" -> StmtWithFault(e)
+       [] e.ev = "sfault" -> SrcFault(e)
        [] e.ev \in {"xfault", "xstmt"} -> XReport(e) /\ st' = st
        [] e.ev = "xschema" -> st' = st
        [] e.ev = "stmt" -> (LET bp == BadProbes(e) IN Report(e, StmtWhat(e, bp), bp)) /\ Judge(e)
